@@ -152,16 +152,24 @@ class ProxyIO:
         self.iochan = proxy_channel
         self.iochan_file = self.iochan.makefile("r")
         self.execmodel = execmodel
+        self._connected = False
 
     def read(self, nbytes: int) -> bytes:
         # TODO(typing): The IO protocol requires bytes here but ChannelFileRead
         # returns str.
         try:
-            return self.iochan_file.read(nbytes)  # type: ignore[return-value]
+            data = self.iochan_file.read(nbytes)
         except self.iochan.RemoteError as exc:
+            if not self._connected:
+                # the forwarder could not even start: that is an error to
+                # show, not a connection that was lost
+                raise
             # the forwarder failed (it could not write to the sub any more):
             # for this gateway the connection is lost like on any other IO
             raise EOFError("proxy io failed: %s" % (exc,)) from exc
+        if data:
+            self._connected = True
+        return data  # type: ignore[return-value]
 
     def write(self, data: bytes) -> None:
         self.iochan.send(data)
